@@ -242,7 +242,7 @@ class Builder:
         if self.share and node["id"] in self.objs:
             return self.objs[node["id"]]
         if "leaf" in node:
-            obj = gens.build_leaf(node["leaf"])
+            obj = self.make_leaf(node)
         else:
             obj = pcvl.Circuit(node["circ"])
             for op in node["ops"]:
@@ -255,6 +255,9 @@ class Builder:
                     obj //= (op["off"], sub)
         self.objs[node["id"]] = obj
         return obj
+
+    def make_leaf(self, node):
+        return gens.build_leaf(node["leaf"])
 
     def lean(self, node):
         """the tree the references denote (merge / `//` splice the sub-circuit's own items)"""
@@ -1450,8 +1453,357 @@ def handle_flatten(chk, case):
 
 
 # ------------------------------------------------------------------------------------------------
+# E. copy() of nested circuits with object identity (Model/C11Deep.lean, driver op `deepcopy`)
+# ------------------------------------------------------------------------------------------------
+# `AProcessor.copy(subs=...)` drops `subs` (candidate repair: fixes/C11-processor-copy-subs.diff).  Symbolic
+# parameters are outside the quantifier of the property ("arbitrary fixed angles"), so the check does not report
+# it; once the repair is in /repo switch this on and Processor.copy(subs=...) is probed like Experiment.copy.
+PROBE_PROCESSOR_COPY_SUBS = False
+
+MUTABLE_CLASSES = ("BS", "PS", "PERM", "Unitary")
+
+
+class CopyBuilder(Builder):
+    """Builder that also makes loss channels and, for the node ids in `symbolic`, phase shifters on a symbol"""
+
+    def __init__(self, symbolic=()):
+        super().__init__(share=True)
+        self.symbolic = set(symbolic)
+        self.params = {}
+
+    def make_leaf(self, node):
+        import perceval as pcvl
+        from perceval.components import LC, PS
+        s = node["leaf"]
+        if s["t"] == "LC":
+            return LC(s["loss"])
+        if s["t"] == "PS" and node["id"] in self.symbolic:
+            p = pcvl.P(f"x{node['id']}")
+            self.params[node["id"]] = (p, gens.cs_angle(s["phi"]))
+            return PS(p)
+        return gens.build_leaf(s)
+
+
+def copy_nodes(node, acc):
+    """all defining nodes of a program (references excluded)"""
+    if "ref" in node:
+        return acc
+    acc.append(node)
+    if "circ" in node:
+        for op in node["ops"]:
+            copy_nodes(op["node"], acc)
+    return acc
+
+
+def gen_copy_case(rng, chk):
+    kind = rng.choice(["circuit", "circuit", "processor", "experiment"])
+    subs = rng.choice([None, None, "empty", "symbolic"])
+    if kind == "circuit" and rng.random() < 0.08:
+        spec = gen_leaf(rng, 4, kinds=("BS", "PS", "PS", "PERM", "U"))
+        top = {"id": 1, "leaf": spec, "size": gens.leaf_width(spec)}
+    else:
+        m = rng.randint(2, chk.pick(6, 8))
+        if rng.random() < 0.1:
+            m = rng.randint(WIDE_MIN, chk.pick(12, 16))
+        pool, counter = [], [0]
+        top = gen_inv_node(rng, m, rng.randint(1, chk.pick(3, 4)), rng.randint(2, chk.pick(6, 9)), pool, counter)
+        subcircs = [n for n in pool if "circ" in n and n["id"] != top["id"]]
+        if subcircs and rng.random() < 0.5:
+            # the same sub-circuit OBJECT once more, nested
+            n = rng.choice(subcircs)
+            top["ops"].append({"off": rng.randint(0, m - n["size"]), "node": {"ref": n["id"]}, "how": "nest"})
+        if kind != "circuit":
+            for op in top["ops"]:
+                op["how"] = "nest"
+            if rng.random() < 0.25:
+                counter[0] = max(n["id"] for n in pool) + 1
+                lc = {"id": counter[0], "leaf": {"t": "LC", "id": counter[0], "loss": rng.choice([0.1, 0.25, 0.5])},
+                      "size": 1}
+                top["ops"].insert(rng.randrange(len(top["ops"]) + 1), {"off": rng.randrange(m), "node": lc, "how": "nest"})
+    ps_ids = [n["id"] for n in copy_nodes(top, []) if "leaf" in n and n["leaf"]["t"] == "PS"]
+    symbolic = [i for i in ps_ids if rng.random() < 0.6]
+    if subs == "symbolic" and not symbolic:
+        if ps_ids:
+            symbolic = [rng.choice(ps_ids)]
+        else:
+            subs = "empty"
+    if subs == "symbolic" and kind == "processor" and not PROBE_PROCESSOR_COPY_SUBS:
+        kind = "experiment"
+    return {"kind": kind, "top": top, "subs": subs, "symbolic": symbolic if subs == "symbolic" else [],
+            "pick": [rng.randrange(1 << 16) for _ in range(3)]}
+
+
+def container_parts(obj):
+    """(size, components) of a container object, None for an elementary component"""
+    from perceval.components.linear_circuit import Circuit
+    from perceval.components.experiment import Experiment
+    from perceval.components.abstract_processor import AProcessor
+    if isinstance(obj, Circuit):
+        return obj.m, obj._components
+    if isinstance(obj, (Experiment, AProcessor)):
+        return obj.circuit_size, obj.components
+    return None
+
+
+def occurrences(obj, depth=0, off=0, out=None):
+    """one entry per occurrence in iteration order, a container before its contents:
+    (python object, depth, first port, size, is a container)"""
+    if out is None:
+        out = []
+    parts = container_parts(obj)
+    if parts is None:
+        out.append((obj, depth, off, obj.m, False))
+    else:
+        out.append((obj, depth, off, parts[0], True))
+        for r, c in parts[1]:
+            occurrences(c, depth + 1, int(list(r)[0]), out)
+    return out
+
+
+def obj_tree(obj, ids, leafspec):
+    """the real object graph as the model's tree; identity = number of the Python object at its first visit"""
+    k = ids.setdefault(id(obj), len(ids))
+    parts = container_parts(obj)
+    if parts is None:
+        return {"id": k, "leaf": lean_leaf(leafspec[id(obj)], obj)}
+    return {"id": k, "circ": parts[0], "items": [[int(list(r)[0]), obj_tree(c, ids, leafspec)] for r, c in parts[1]]}
+
+
+def copy_matrix_of(obj):
+    from perceval.components.experiment import Experiment
+    from perceval.components.abstract_processor import AProcessor
+    if isinstance(obj, AProcessor):
+        return np_u(obj.linear_circuit())
+    if isinstance(obj, Experiment):
+        return np_u(obj.unitary_circuit())
+    return np_u(obj)
+
+
+def build_copy_program(case, symbolic):
+    import perceval as pcvl
+    top = case["top"]
+    b = CopyBuilder(symbolic)
+    b.index(top)
+    if case["kind"] == "circuit":
+        return b, b.build(top), None
+    proc = pcvl.Processor("SLOS", top["circ"])
+    for op in top["ops"]:
+        proc.add(op["off"], b.build(op["node"]))
+    return b, (proc if case["kind"] == "processor" else proc.experiment), proc
+
+
+def shape_of(occ):
+    return [[d, off, sz, cont] for _, d, off, sz, cont in occ]
+
+
+def judge_copy_(chk, case, count=True):
+    kind, top, subs = case["kind"], case["top"], case["subs"]
+    rp = {"case": case}
+    b, orig, _keep = build_copy_program(case, case["symbolic"] if subs == "symbolic" else ())
+    has_lc = any("leaf" in n and n["leaf"]["t"] == "LC" for n in copy_nodes(top, []))
+    if subs == "symbolic":
+        _, twin, _keep2 = build_copy_program(case, ())      # the same program written with the numbers
+        u0 = None if has_lc else copy_matrix_of(twin)
+        sub_arg = {p._symbol: val for p, val in b.params.values()}
+    else:
+        u0 = None if has_lc else copy_matrix_of(orig)
+        sub_arg = {} if subs == "empty" else None
+    what_call = f"{type(orig).__name__}.copy({'' if sub_arg is None else 'subs=' + ('{}' if not sub_arg else '{symbol: value, ...}')})"
+    leafspec = {id(o): b.specs[nid]["leaf"] for nid, o in b.objs.items() if "leaf" in b.specs[nid]}
+    ids = {}
+    tree = obj_tree(orig, ids, leafspec)
+    occ_o = occurrences(orig)
+    nxt = len(ids)
+    cp = orig.copy() if sub_arg is None else orig.copy(subs=sub_arg)
+    occ_c = occurrences(cp)
+    ids_c = [ids.setdefault(id(o), len(ids)) for o, *_ in occ_c]
+    rep = chk.lean.ask({"op": "deepcopy", "tree": tree, "next": nxt})
+    if "err" in rep:
+        return ("broken", "deepcopy-model-error", rep["err"], rp)
+    if rep["origIds"] != [ids[id(o)] for o, *_ in occ_o]:
+        return ("broken", "deepcopy-harness-walk", "the two walks of the original disagree", rp)
+    # ---- one new object per occurrence
+    if ids_c != rep["ids"]:
+        j = next((i for i, (x, y) in enumerate(zip(ids_c, rep["ids"])) if x != y), min(len(ids_c), len(rep["ids"])))
+        if len(ids_c) == len(rep["ids"]):
+            o = occ_c[j]
+            shared_orig = next((i for i, x in enumerate(ids_c) if x < nxt), None)
+            if shared_orig is not None:
+                o = occ_c[shared_orig]
+                return ("violation", "deep-copy-shares-objects", f"{what_call}: occurrence {shared_orig} of the copy "
+                        f"(depth {o[1]}, mode {o[2]}, {type(o[0]).__name__}) is an object of the original", rp)
+            # objects shared inside the copy only: not what the code did (one new object per occurrence) but original
+            # and copy are still independent and the matrix is the same - model and code disagree, no failing input
+            return ("broken", "deepcopy-sharing-inside-copy", f"{what_call}: occurrence {j} of the copy (depth {o[1]}, "
+                    f"mode {o[2]}, {type(o[0]).__name__}) is an object the copy holds at an earlier place too; the model "
+                    f"makes one new object per occurrence", rp)
+        return ("violation", "deep-copy-structure", f"{what_call}: the copy holds {len(ids_c)} component occurrences, "
+                f"the original {len(rep['ids'])}", rp)
+    if kind == "processor" and cp.experiment is orig.experiment:
+        return ("violation", "deep-copy-shares-objects", "Processor.copy() shares the Experiment object", rp)
+    # ---- same nesting, same modes
+    if shape_of(occ_c) != rep["shape"]:
+        if shape_of(occ_c) != shape_of(occ_o):
+            return ("violation", "deep-copy-structure", f"{what_call}: nesting / modes of the copy differ from the original's "
+                    f"(copy {shape_of(occ_c)[:8]}, original {shape_of(occ_o)[:8]})", rp)
+        return ("broken", "deepcopy-shape-model-vs-code", f"copy {shape_of(occ_c)[:8]}, model {rep['shape'][:8]}", rp)
+    # ---- same matrix
+    if u0 is not None:
+        try:
+            uc = copy_matrix_of(cp)
+        except AssertionError as e:
+            return ("violation", "copy-matrix", f"{what_call}: the copy has no numeric matrix ({str(e)[:80]})", rp)
+        if not close_np(uc, np.array(core.unmat(rep["U"]), dtype=complex)):
+            if not close_np(uc, u0):
+                return ("violation", "copy-matrix", f"{what_call} changes the matrix by "
+                        f"{float(np.max(np.abs(uc - u0))):.3g}", rp)
+            return ("broken", "deepcopy-matrix-model-vs-code", "matrix of the copy differs from the model's", rp)
+    if subs == "symbolic":
+        if any(p.defined for p, _ in b.params.values()):
+            return ("violation", "copy-not-independent", f"{what_call} gives values to the symbols of the ORIGINAL", rp)
+    # ---- independence under in-place changes
+    mutated = []
+    if u0 is not None and subs != "symbolic":
+        def mutable(objs):
+            seen, out = set(), []
+            for o, _, _, _, cont in objs:
+                if not cont and type(o).__name__ in MUTABLE_CLASSES and id(o) not in seen:
+                    seen.add(id(o))
+                    out.append(o)
+            return out
+
+        def invert(o):
+            try:
+                o.inverse(h=True)
+                return True
+            except ValueError as e:
+                if "out of bound" in str(e):
+                    return False
+                raise
+        cands = mutable(occ_c)
+        if cands:
+            o = cands[case["pick"][0] % len(cands)]
+            if invert(o):
+                rm = chk.lean.ask({"op": "deepcopy", "tree": tree, "next": nxt, "mutate": ids[id(o)]})
+                if "err" in rm:
+                    return ("broken", "deepcopy-model-error", rm["err"], rp)
+                uo = copy_matrix_of(orig)
+                if not close_np(uo, u0):
+                    return ("violation", "copy-not-independent", f"{what_call}; copy's {type(o).__name__}.inverse(h=True) "
+                            f"changes the matrix of the ORIGINAL by {float(np.max(np.abs(uo - u0))):.3g}", rp)
+                if not close_np(uo, np.array(core.unmat(rm["origAfter"]), dtype=complex)) or \
+                        not close_np(copy_matrix_of(cp), np.array(core.unmat(rm["copyAfter"]), dtype=complex)):
+                    return ("broken", "deepcopy-mutate-model-vs-code", "after an in-place inverse of a leaf of the copy the "
+                            "matrices differ from the model's", rp)
+                mutated.append("copy")
+        cands = mutable(occ_o)
+        n_occ = {}
+        for o, *_ in occ_o:
+            n_occ[id(o)] = n_occ.get(id(o), 0) + 1
+        multi = [o for o in cands if n_occ[id(o)] > 1]
+        if multi and case["pick"][1] % 2 == 0:
+            cands = multi
+        if cands:
+            cp2 = orig.copy() if sub_arg is None else orig.copy(subs=sub_arg)
+            o = cands[case["pick"][2] % len(cands)]
+            if invert(o):
+                rm = chk.lean.ask({"op": "deepcopy", "tree": tree, "next": nxt, "mutate": ids[id(o)]})
+                if "err" in rm:
+                    return ("broken", "deepcopy-model-error", rm["err"], rp)
+                u2 = copy_matrix_of(cp2)
+                if not close_np(u2, u0):
+                    return ("violation", "copy-not-independent", f"{what_call}; original's {type(o).__name__}.inverse(h=True) "
+                            f"changes the matrix of the COPY by {float(np.max(np.abs(u2 - u0))):.3g}", rp)
+                if not close_np(copy_matrix_of(orig), np.array(core.unmat(rm["origAfter"]), dtype=complex)) or \
+                        not close_np(u2, np.array(core.unmat(rm["copyAfter"]), dtype=complex)):
+                    return ("broken", "deepcopy-mutate-model-vs-code", "after an in-place inverse of a leaf of the original "
+                            "the matrices differ from the model's", rp)
+                mutated.append("original-shared" if n_occ[id(o)] > 1 else "original")
+    if count:
+        chk.branch("deepcopy-" + kind)
+        chk.branch("deepcopy-subs-" + (subs or "none"))
+        if max(d for _, d, *_ in occ_o) >= 2:
+            chk.branch("deepcopy-nested")
+        n_occ = {}
+        for o, _, _, _, cont in occ_o:
+            n_occ[(id(o), cont)] = n_occ.get((id(o), cont), 0) + 1
+        if any(n > 1 and not cont for (_, cont), n in n_occ.items()):
+            chk.branch("deepcopy-shared-leaf")
+        if any(n > 1 and cont for (_, cont), n in n_occ.items()):
+            chk.branch("deepcopy-shared-subcircuit")
+        if has_lc:
+            chk.branch("deepcopy-with-loss")
+        if len(occ_o) == 1:
+            chk.branch("deepcopy-lone-component")
+        for w in mutated:
+            chk.branch("deepcopy-mutate-" + w)
+        chk.count("deepcopy_occurrences", min(len(occ_o), 30))
+    return None
+
+
+def judge_copy(chk, case, count=True):
+    try:
+        return judge_copy_(chk, case, count)
+    except core.LeanError:
+        raise
+    except (AssertionError, RuntimeError, ValueError, IndexError, TypeError, KeyError, AttributeError,
+            NotImplementedError) as e:
+        import traceback
+        tb = traceback.extract_tb(e.__traceback__)
+        where = next((f"{os.path.basename(fr.filename)}:{fr.name}" for fr in reversed(tb) if "perceval" in fr.filename), None)
+        if where is None:
+            raise
+        return ("violation", "copy-raises", f"{where} raises {type(e).__name__}: {str(e)[:100]} while copying a valid "
+                f"{case['kind']}", {"case": case})
+
+
+def shrink_copy(chk, case, sig):
+    cur = copy.deepcopy(case)
+    budget = 60
+
+    def fails(c):
+        try:
+            r = judge_copy(chk, c, count=False)
+        except Exception:
+            return False
+        return r is not None and r[1] == sig
+
+    changed = True
+    while changed and budget > 0:
+        changed = False
+        n_nodes = len([n for n in copy_nodes(cur["top"], []) if "circ" in n])
+        for idx in range(n_nodes):
+            nd = [n for n in copy_nodes(cur["top"], []) if "circ" in n][idx]
+            for i in range(len(nd["ops"])):
+                if len(nd["ops"]) <= 1:
+                    break
+                c2 = copy.deepcopy(cur)
+                n2 = [n for n in copy_nodes(c2["top"], []) if "circ" in n][idx]
+                del n2["ops"][i]
+                budget -= 1
+                if fails(c2):
+                    cur, changed = c2, True
+                    break
+            if changed or budget <= 0:
+                break
+    return cur
+
+
+def handle_copy(chk, case):
+    res = judge_copy(chk, case)
+    nodes = copy_nodes(case["top"], [])
+    chk.case(("copy", json.dumps(case, sort_keys=True)[:3000]),
+             nontrivial=len(nodes) >= 3,
+             sample={"part": "copy", "kind": case["kind"], "subs": case["subs"], "nodes": len(nodes)})
+    if res is not None:
+        kind, sig, what, replay = res
+        small = shrink_copy(chk, case, sig) if kind == "violation" else case
+        chk.fail(kind, sig, what, {"part": "copy", "case": small})
+
+
+# ------------------------------------------------------------------------------------------------
 PARTS = {"inverse": handle_inverse, "simplify": handle_simplify, "decompose": handle_decompose,
-         "flatten": handle_flatten}
+         "flatten": handle_flatten, "copy": handle_copy}
 
 
 def load_corpus():
@@ -1503,6 +1855,11 @@ def run(chk: core.Check):
         # paths of _generate_compatible_perm / _update_perm / _search_empty_space are all taken
         "simp-heuristic-exact", "heur-first-step", "heur-second-step", "heur-search-left", "heur-search-right",
         "heur-identity-retry", "heur-shift-right", "heur-shift-left", "heur-shift-right-wide",
+        # copy() of nested circuits with object identity against the model's deep copy (driver op `deepcopy`)
+        "deepcopy-circuit", "deepcopy-processor", "deepcopy-experiment", "deepcopy-nested", "deepcopy-shared-leaf",
+        "deepcopy-shared-subcircuit", "deepcopy-with-loss", "deepcopy-lone-component", "deepcopy-subs-none",
+        "deepcopy-subs-empty", "deepcopy-subs-symbolic", "deepcopy-mutate-copy", "deepcopy-mutate-original",
+        "deepcopy-mutate-original-shared",
     ]
     chk.lean = core.LeanDriver("C11")
     rng = chk.rng
@@ -1526,6 +1883,8 @@ def run(chk: core.Check):
         handle_simplify(chk, case)
     for _ in range(chk.pick(450, 2500)):
         handle_flatten(chk, gen_flat_case(rng, chk))
+    for _ in range(chk.pick(300, 1500)):
+        handle_copy(chk, gen_copy_case(rng, chk))
 
 
 def replay(chk, data):
